@@ -76,6 +76,11 @@ declare -A DEMO=(
  [C08d_cmdsubst_interrupt_leaks_reader]="-p yash-semantics --test c08d_command_subst_interrupt"
  [C09d_move_fd_internal_leaks_on_failure]="-p yash-env -p yash-builtin --test c09d_move_fd_internal --test c09d_dot_fd_exhaustion"
  [C10d_errexit_skipped_without_command_name]="-p yash-semantics --test c10d_errexit_without_command_name"
+ [C11d_wait_trap_runs_twice]="-p yash-builtin --test c11d_wait_trap_once"
+ [C12d_set_current_accepts_finished_job]="-p yash-builtin --test c12d_bg_finished_job"
+ [C13d_cmdsubst_waits_before_reading]="-p yash-semantics --test c13d_command_subst_long_output"
+ [C14d_heredoc_dash_counts_all_tabs]="-p yash-semantics --test c14d_here_doc_tabs"
+ [C15d_receiver_keeps_first_waker]="-p yash-executor --test c15d_receiver_handover"
  [C16c_readonly_local_in_function]="-p yash-builtin --test c16c_readonly_in_function"
  [C20c_kill_attached_sig_prefix]="-p yash-builtin --test c20c_kill_attached_signal"
 )
